@@ -26,6 +26,7 @@ from pipeline import close
 
 
 def check_model(rep, drv, gen, rng, m, text, c, npts=3, fixed_points=None):
+    pipeline.check_parser(rep, drv, text, "model text")
     if not family.mirror_agrees(rep, c, text):
         return
     # the items the parser produced are the items the text was rendered from (grammar contract)
